@@ -601,6 +601,14 @@ class Ev:
           env[k] = BoolV((c & a.f) | (~c & b.f))
         elif a is None or b is None:
           env[k] = a if a is not None else b
+        elif isinstance(a, Opaque) and isinstance(b, SetV) and isinstance(
+            e2.get('@' + a.text), SetV) and _same(e2['@' + a.text], b):
+          # memo: one branch reads the table entry the other branch has just
+          # stored (`if key in memo: v = memo[key]` / `else: v = memo[key] = ...`)
+          env[k] = b
+        elif isinstance(b, Opaque) and isinstance(a, SetV) and isinstance(
+            e1.get('@' + b.text), SetV) and _same(e1['@' + b.text], a):
+          env[k] = a
         else:
           env[k] = a
       if p1 is None and p2 is None:
